@@ -31,6 +31,13 @@ pub trait SimHooks: Send + Sync {
     fn read_file(&self, path: &Path) -> Option<String>;
     /// A named scheduling point.
     fn point(&self, label: &'static str);
+    /// Condition variables (identified by address): register as a waiter (no scheduling point;
+    /// the caller then releases its mutex), block until the ticket is notified, notify.
+    fn cond_prepare(&self, _cond: usize) -> u64 {
+        0
+    }
+    fn cond_block(&self, _cond: usize, _ticket: u64) {}
+    fn cond_notify(&self, _cond: usize, _all: bool) {}
 }
 
 struct NoHooks;
